@@ -2104,4 +2104,97 @@ theorem attr_bytes_decode' (cx : Ctx) (pos : Nat) (v : AttrVal) (em : Emit) (fv 
       simp [readForm, attrForm, DW_FORM_string, DW_FORM_block, DW_FORM_exprloc, DW_FORM_addr, DW_FORM_data1, DW_FORM_flag, DW_FORM_data2, DW_FORM_data4, DW_FORM_ref4, DW_FORM_ref_sup4, DW_FORM_data8, DW_FORM_ref8, DW_FORM_ref_sup8, DW_FORM_ref_sig8, DW_FORM_data16, DW_FORM_sec_offset, DW_FORM_strp, DW_FORM_strp_sup, DW_FORM_line_strp, DW_FORM_udata, DW_FORM_flag_present, this]
 
 
+/-! ## signed constants and expression bodies decode too -/
+
+/-- the bytes of an expression item do not depend on where it is written -/
+theorem exprItemEmit_bytes_pos (cx : Ctx) (p q : Nat) (it : ExprItem) (b : Bytes) (fx : List IFix)
+    (h : exprItemEmit cx p it = .ok (b, fx)) : ∃ fx', exprItemEmit cx q it = .ok (b, fx') := by
+  cases it with
+  | raw bs => simp only [exprItemEmit] at h ⊢; exact ⟨_, h⟩
+  | convert id => simp only [exprItemEmit] at h ⊢; exact ⟨_, h⟩
+  | call id => simp only [exprItemEmit] at h ⊢; exact ⟨_, h⟩
+  | callRef u id =>
+    simp only [exprItemEmit] at h ⊢
+    obtain ⟨w, hw, h⟩ := bind_ok_inv h
+    simp only [Out.pure_eq, Out.ok.injEq, Prod.mk.injEq] at h
+    refine ⟨[{ pos := q + 1, size := cx.enc.word, unit := u, id := id }], ?_⟩
+    rw [hw]; simp only [Out.bind_ok, Out.pure_eq]; rw [← h.1]
+
+theorem exprItemsEmit_bytes_pos (cx : Ctx) : ∀ (items : List ExprItem) (p q : Nat) (b : Bytes) (fx : List IFix),
+    exprItemsEmit cx p items = .ok (b, fx) → ∃ fx', exprItemsEmit cx q items = .ok (b, fx')
+  | [], p, q, b, fx, h => by
+    simp only [exprItemsEmit, Out.ok.injEq, Prod.mk.injEq] at h ⊢
+    exact ⟨[], h.1, rfl⟩
+  | it :: rest, p, q, b, fx, h => by
+    rw [exprItemsEmit] at h ⊢
+    obtain ⟨⟨a, fa⟩, ha, h⟩ := bind_ok_inv h
+    obtain ⟨⟨r, fr⟩, hr, h⟩ := bind_ok_inv h
+    simp only [Out.pure_eq, Out.ok.injEq, Prod.mk.injEq] at h
+    obtain ⟨fa', ha'⟩ := exprItemEmit_bytes_pos cx p q it a fa ha
+    obtain ⟨fr', hr'⟩ := exprItemsEmit_bytes_pos cx rest (p + a.length) (q + a.length) r fr hr
+    refine ⟨fa' ++ fr', ?_⟩
+    rw [ha']; simp only [Out.bind_ok]; rw [hr']; simp only [Out.bind_ok, Out.pure_eq]; rw [← h.1]
+
+theorem signed_form_roundtrip (e : Endian) (c : Enc) (i ic : Int) (rest : Bytes)
+    (hlo : -(2 : Int) ^ 63 ≤ i) (hhi : i < 2 ^ 63) :
+    readFormFull e c DW_FORM_sdata ic (Leb.encodeS i ++ rest) = .ok (.int i, rest) := by
+  simp [readFormFull, Leb.signed_roundtrip i hlo hhi rest]
+
+/-- the kinds `decoded` covers are never written in one of the two signed forms -/
+theorem attrForm_unsigned (cx : Ctx) (v : AttrVal) (fv : FormVal) (h : decoded cx v = some fv) :
+    (attrForm cx.enc v).1 ≠ DW_FORM_sdata ∧ (attrForm cx.enc v).1 ≠ DW_FORM_implicit_const := by
+  cases v <;> simp only [decoded, reduceCtorEq] at h <;>
+    simp only [attrForm, DW_FORM_sdata, DW_FORM_implicit_const, DW_FORM_addr, DW_FORM_block, DW_FORM_data1,
+      DW_FORM_data2, DW_FORM_data4, DW_FORM_data8, DW_FORM_data16, DW_FORM_flag, DW_FORM_flag_present,
+      DW_FORM_ref_sup4, DW_FORM_ref_sup8, DW_FORM_sec_offset, DW_FORM_ref_sig8, DW_FORM_strp,
+      DW_FORM_strp_sup, DW_FORM_line_strp, DW_FORM_string, DW_FORM_udata] <;>
+    (repeat' split) <;> decide
+
+/-- **Every value that is not a patched reference decodes to itself**: `attr_bytes_decode'`
+extended by signed constants (C09's `signed_roundtrip`) and expression bodies. -/
+theorem attr_bytes_decode_full (cx : Ctx) (pos : Nat) (v : AttrVal) (em : Emit) (fv : FormVal) (rest : Bytes)
+    (h : attrEmit cx pos v = .ok em) (hr : v.InRangeFull cx) (hd : decodedFull cx v = some fv)
+    (hso : ∀ o ∈ cx.strOffsets, o < 2 ^ 64) (hlo : ∀ o ∈ cx.lineStrOffsets, o < 2 ^ 64)
+    (hlp : ∀ o, cx.lineProgram = some o → o < 2 ^ 64) :
+    readFormFull cx.endian cx.enc (attrForm cx.enc v).1 (attrForm cx.enc v).2 (em.bytes ++ rest) = .ok (fv, rest) := by
+  obtain ⟨hr1, hr2⟩ := hr
+  cases v
+  case sdata i =>
+    simp only [attrEmit, Out.ok.injEq] at h
+    simp only [decodedFull, Option.some.injEq] at hd
+    subst h hd
+    simpa [attrForm, Emit.ofBytes] using signed_form_roundtrip cx.endian cx.enc i 0 rest hr2.1 hr2.2
+  case implicitConst i =>
+    simp only [attrEmit, Out.ok.injEq] at h
+    simp only [decodedFull, Option.some.injEq] at hd
+    subst h hd
+    by_cases hv : cx.enc.version ≥ 5
+    · simp [attrForm, hv, readFormFull, Emit.ofBytes, DW_FORM_implicit_const, DW_FORM_sdata]
+    · simpa [attrForm, hv, Emit.ofBytes] using signed_form_roundtrip cx.endian cx.enc i 0 rest hr2.1 hr2.2
+  case exprloc items =>
+    simp only [attrEmit] at h
+    obtain ⟨size, hsz, h⟩ := bind_ok_inv h
+    obtain ⟨⟨body, fx⟩, hb, h⟩ := bind_ok_inv h
+    simp only [Out.pure_eq, Out.ok.injEq] at h
+    subst h
+    have hlen := exprItems_size_eq_emit cx cx.offs items _ _ _ _ (Offs.Ext.refl _) hsz hb
+    obtain ⟨fx0, hb0⟩ := exprItemsEmit_bytes_pos cx items _ 0 body fx hb
+    have heb : exprBytes cx items = some body := by simp [exprBytes, hb0]
+    simp only [decodedFull, heb, Option.map_some, Option.some.injEq] at hd
+    subst hd
+    have hbl := hr2 body heb
+    have hnf : (attrForm cx.enc (.exprloc items)).1 = DW_FORM_block ∨ (attrForm cx.enc (.exprloc items)).1 = DW_FORM_exprloc := by
+      simp only [attrForm]; split <;> simp
+    have hne : (attrForm cx.enc (.exprloc items)).1 ≠ DW_FORM_sdata ∧ (attrForm cx.enc (.exprloc items)).1 ≠ DW_FORM_implicit_const := by
+      rcases hnf with h | h <;> rw [h] <;> decide
+    simp only [readFormFull, hne.1, hne.2, if_false]
+    rw [← hlen]
+    simpa [List.append_assoc] using block_roundtrip body rest hbl _ cx.endian cx.enc hnf
+  all_goals
+    (simp only [decodedFull] at hd
+     obtain ⟨n1, n2⟩ := attrForm_unsigned cx _ fv hd
+     simp only [readFormFull, n1, n2, if_false]
+     exact attr_bytes_decode' cx pos _ em fv rest h hr1 hd hso hlo hlp)
+
+
 end Gimli.WUnit
